@@ -44,15 +44,16 @@ def run(ctx):
     # --- stage 1: every TLC run that does not depend on amoco, in parallel ---------------------------
     mcs = (["MapperMC_quick.cfg", "MapperMC_quick2.cfg", "MapperMC_quick3.cfg"] if quick else
            ["MapperMC_quick.cfg", "MapperMC_quick2.cfg", "MapperMC_thorough.cfg", "MapperMC_thorough2.cfg",
-            "MapperMC_thorough3.cfg"])
+            "MapperMC_thorough3.cfg", "MapperMC_reload.cfg"])
     rej = ["MapperMC_kf_%s.cfg" % q for q in QUIRKS] + ["MapperMC_asis.cfg", "MapperMC_dev.cfg", "MapperMC_dev2.cfg"]
     if quick:
-        gens = [("MapperGen_tiny.cfg", "tiny", None, None, 100), ("MapperGen_small.cfg", "small", "num=40", 4, 120),
-                ("MapperSim.cfg", "sim", "num=40", 7, 120)]
-        nrandom = 120
+        gens = [("MapperGen_tiny.cfg", "tiny", None, None, 80), ("MapperGen_small.cfg", "small", "num=40", 4, 100),
+                ("MapperSim.cfg", "sim", "num=40", 7, 100), ("MapperGen_reload.cfg", "reload", "num=30", 6, 80)]
+        nrandom = 112
     else:
         gens = [("MapperGen_tiny.cfg", "tiny", None, None, None), ("MapperGen_small.cfg", "small", None, None, 2000),
-                ("MapperGen_small4.cfg", "small4", None, None, 1000), ("MapperSim.cfg", "sim", "num=400", 7, 2000)]
+                ("MapperGen_small4.cfg", "small4", None, None, 1000), ("MapperSim.cfg", "sim", "num=400", 7, 2000),
+                ("MapperGen_reload.cfg", "reload", "num=300", 6, 1500)]
         nrandom = 2000
     jobs = [(lambda c=c: tlc.run("Mapper", c, tag="c09mc" + c[9:-4], timeout=12000, workers=None if not quick else 2)) for c in mcs]
     jobs += [(lambda c=c: tlc.run("Mapper", c, expect_violation=True, tag="c09rej" + c[9:-4], timeout=3000, workers=2)) for c in rej]
